@@ -32,6 +32,15 @@ def run(tier, seed):
     res = ce.run_dfs(fxv, rd, ce.range_family(), "range", maxsched=500 if tier == "quick" else 4000,
                      preempt=2 if tier == "quick" else 3)
     collect(PROP, res, rd, ["RangeStable"], viol, cst)
+    # every mutation path updates the ordered index inside the key's critical section, the sweeper and
+    # the lazy expiry path included: creators racing with them (both indexes agree at quiescence)
+    sfam = [(n, p) for n, p in ce.pair_family() if ("|sweep" in n or "sweep|" in n or n.startswith("expired|"))
+            and any(x in n for x in ("ins_", "insb_", "iia", "incr"))]
+    if tier == "quick":
+        rng.shuffle(sfam)
+        sfam = sfam[:60]
+    res = ce.run_dfs(fxv, rd, sfam, "sweepidx", maxsched=300 if tier == "quick" else 2000, preempt=2)
+    collect(PROP, res, rd, ["RangeStable"], viol, cst)
     free = [("free_rng_%d" % i, ["--seed", str(rng.randrange(1 << 30)), "--threads", "3", "--ops", "25", "--keys", "4",
                                  "--rounds", "20"]) for i in range(4 if tier == "quick" else 24)]
     free += [("free_rngp_%d" % i, ["--seed", str(rng.randrange(1 << 30)), "--threads", "3", "--ops", "20", "--keys", "4",
